@@ -32,10 +32,12 @@ THEOREMS = [
      'forall (T M V A : Type) (update : T -> option T -> option T -> T) (push : T -> option T -> option T -> T * option T * option T) (size : T -> Z) (modify : M -> T -> T) (elem : T -> V) (agg : T -> A) (act : M -> V -> V) (aggf : list V -> A) (Pending : T -> list M -> Prop), lawful update push size modify elem agg act aggf Pending -> forall (ps : list Z) (ops : list op) (sst : list (list V)) (outs : list output), Forall (op_fresh size elem agg aggf Pending) ops -> srun elem act aggf [] ops = Some (sst, outs) -> run_outputs update push size modify elem agg ps ops = outs /\\ Forall2 (Rep size elem agg act aggf Pending) (run_final update push size modify elem agg ps ops) sst'),
     ('c03_isz_lawful',
      'lawful isz_update isz_push isize isz_modify ix ism Z.add zsum isz_pending'),
+    ('c03_model_check_spec_check',
+     'forall c : case, model_check c = true -> spec_check c = true'),
     ('c03_iaa_lawful',
      'lawful iaa_update iaa_push asize iaa_modify ax asm amod_act zsum iaa_pending'),
 ]
-RULE = ("multi-treap op histories (1-45 ops, up to 6 live treaps, up to ~35 elements) over two item kinds (lazy add + sum; "
+RULE = ("every priority assignment {0..n-1}^n (ties included) for n <= 4 (quick) / 5 (thorough) on a build / root-modify / split / aggregate / modify / merge / observe history, plus random multi-treap op histories (1-45 ops, up to 6 live treaps, up to ~35 elements) over two item kinds (lazy add + sum; "
         "assign-or-add + sum, non-commuting modifications); priorities injected through the public field: random 32-bit, "
         "tiny range (ties), all equal, increasing, decreasing, or the generator's own draws (real insert_at, stream predicted "
         "by the plugin); histories are biased to the split-modify-merge pattern (range modify / range aggregate), sorted-set "
@@ -248,8 +250,28 @@ def gen_history(rng, nops, kind, mode, maxel=35):
     return {"kind": kind, "native": mode == "native", "mode": mode, "ops": ops}
 
 
+def exhaustive_small(nmax):
+    """every priority assignment {0..n-1}^n (ties included) for n <= nmax: build by appends, modify the root,
+    split at a cut, read both aggregates, modify one side, merge back, observe"""
+    import itertools
+    cases, idx = [], 0
+    for n in range(1, nmax + 1):
+        for f in itertools.product(range(n), repeat=n):
+            idx += 1
+            kind = idx % 2
+            ops = [["F", 0, f[0]]]
+            for i in range(1, n):
+                ops.append(["I", 0, i, 10 * i, f[i]])
+            ops.append(["U", 0, "s", 7, kind] if kind == 1 else ["U", 0, "a", 7, kind])
+            ops.append(["U", 0, "a", 1, kind])
+            k = idx % (n + 1)
+            ops += [["A", 0, k], ["G", 0], ["G", 1], ["U", 1, "a", 3, kind], ["M", 0, 1], ["C", 0], ["f", 0], ["l", 0], ["S", 0]]
+            cases.append({"kind": kind, "native": False, "mode": "exhaustive", "ops": ops})
+    return cases
+
+
 def generate(rng, tier):
-    cases = []
+    cases = exhaustive_small(4 if tier == "quick" else 5)
     n = 1400 if tier == "quick" else 30000
     for t in range(n):
         kind = t % 2
@@ -407,12 +429,21 @@ def known_finding(c, obs, profile):
 
 
 MANIFEST = {
-    "text": "Coq theorems (no axioms) about an executable Gallina model of rlib_treap (merge, split_at, split_by, push/update "
-            "discipline, collect, first, last, insert_at, remove_at, root modification), generic over a lawful item "
-            "interface and over EVERY priority assignment (ties included): the model refines a list-of-lists machine. "
-            "The model is tied to the code on every run: histories are run on the real Treap with injected or native "
-            "priorities and Coq proves model = implementation and implementation |= list specification per case.",
-    "level_note": "Trusted: Coq kernel + vm_compute; the Rust executor and Python printer; Box/Option ownership modelled "
-                  "functionally; the correspondence is sampled (histories up to 80 ops).",
+    "text": "Coq theorems (no axioms, closed under the global context) about an executable Gallina model of rlib_treap (merge, split_at, "
+            "split_by, push/update discipline, collect, first, last, insert_at, remove_at, root modification, a multi-treap machine), "
+            "generic over a lawful item interface (elem/agg/size/Pending, modifications need not commute) and over EVERY priority "
+            "assignment, ties included: Rep invariant; c03_merge_rep (concatenation), c03_split_at_rep (firstn/skipn for every k, k >= len "
+            "as len), c03_split_by_rep (take_while/drop_while for prefix-monotone predicates), c03_insert_at, c03_remove_at (returns the "
+            "k-th element; out of range = panic, sequence unchanged), c03_first_last_collect_size (+ root aggregate = fold of exactly that "
+            "subsequence), c03_modify_root (a root modification reaches exactly that treap's elements, once, in attachment order), "
+            "c03_history (outputs of any history = outputs of the list-of-lists specification, for every priority stream), lawfulness of "
+            "the ItemSized-like item and of an assign-vs-add item, c03_model_check_spec_check (agreement with the model implies the "
+            "specification on every correspondence case). The model is tied to the code on every run: histories are run on the real Treap "
+            "with injected (public priority field) or native priorities and Coq proves model = implementation and implementation |= list "
+            "specification for every case.",
+    "level_note": "Trusted: Coq kernel + vm_compute; the Rust executor and the Python case printer; Box/Option ownership modelled "
+                  "functionally; usize as Z; with injected priorities insert_at is replayed as its body (split_at, from_item, merge, merge) "
+                  "because the node is created inside insert_at - the real insert_at runs in the native-priority cases; the "
+                  "correspondence is sampled (histories up to 80 ops, all priority assignments up to 5 nodes).",
     "technique": "Coq proof over Gallina model + vm_compute correspondence batches against the Rust crate",
 }
